@@ -99,6 +99,10 @@ type Scanner struct {
 	// unfinishedLiteral a sign that a literal has been started but not completed.
 	unfinishedLiteral bool
 
+	// unfinishedAnnotationStart a sign that the first byte of `//` or `/*` has been
+	// read but not the second one.
+	unfinishedAnnotationStart bool
+
 	// lengthComputing used when a file contains data after the schema (for example,
 	// in jApi).
 	lengthComputing bool
@@ -259,6 +263,13 @@ func (s *Scanner) Next() (lexeme.LexEvent, bool) {
 			s.found(lexeme.MixedValueEnd)
 			return s.processingFoundLexeme(lexeme.TypesShortcutEnd), true
 		}
+		err := errors.NewDocumentError(s.file, errors.ErrUnexpectedEOF)
+		err.SetIndex(s.dataSize - 1)
+		panic(err)
+	}
+
+	if s.unfinishedAnnotationStart {
+		// Nothing is open, but the text ends after the first byte of `//` or `/*`.
 		err := errors.NewDocumentError(s.file, errors.ErrUnexpectedEOF)
 		err.SetIndex(s.dataSize - 1)
 		panic(err)
